@@ -453,7 +453,7 @@ func GenDcProgram(r *RNG, arrays bool) (*DcProgram, []string) {
 			}
 		}
 		for _, d := range g.prog.Decls {
-			if d.Pkg == "p" && need[d.QName()] && d.Kind != "iface" && !(d.Kind == "alias" && d.Under.K == "builtin") {
+			if d.Pkg == "p" && need[d.QName()] && d.Kind != "iface" && !(d.Kind == "alias" && (d.Under.K == "builtin" || d.Under.K == "ptr")) {
 				d.Tag = "true"
 				d.Detached = r.Chance(1, 3)
 			}
